@@ -241,9 +241,29 @@ def run(prog: Program, res: Result) -> None:
     if flt is None:
         raise AnalysisError("Filter vanished")
     rejected: set[str] = set()
+    init = flt.methods.get("__init__")
+    if init is None:
+        raise AnalysisError("Filter.__init__ vanished")
+
+    def _unconditional(m: FunctionInfo, node: ast.AST) -> bool:
+        """node runs on every call of m: its only enclosing compound statements are for loops over the arguments."""
+        for a in m.module.ancestors(node):
+            if a is m.node:
+                return True
+            if isinstance(a, (ast.If, ast.While, ast.Try, ast.With, ast.IfExp, ast.Match)) and a is not node:
+                return False
+        return True
+
+    # methods that every construction of a Filter runs: __init__ and whatever it calls unconditionally on self
+    always = {"__init__"}
+    for st in ast.walk(init.node):
+        if isinstance(st, ast.Expr) and isinstance(st.value, ast.Call) and isinstance(st.value.func, ast.Attribute) and isinstance(st.value.func.value, ast.Name) and st.value.func.value.id == "self" and _unconditional(init, st):
+            always.add(st.value.func.attr)
     for m in flt.methods.values():
+        if m.name not in always:
+            continue
         for t in ast.walk(m.node):
-            if isinstance(t, ast.If) and any(isinstance(r, ast.Raise) for r in ast.walk(t)):
+            if isinstance(t, ast.If) and any(isinstance(r, ast.Raise) for r in ast.walk(t)) and _unconditional(m, t):
                 for c in ast.walk(t.test):
                     if isinstance(c, ast.Compare) and len(c.ops) == 1 and isinstance(c.ops[0], (ast.In, ast.Eq)) and norm(c.left).endswith(".name"):
                         comp = c.comparators[0]
@@ -254,7 +274,7 @@ def run(prog: Program, res: Result) -> None:
         site = f"{ff.file}:{ff.node.lineno} RenderContext.filter"
         what = f"injected keyword `{name}` is refused as a template keyword argument"
         if name in rejected:
-            res.ok("C05.R5", site, what, "Filter raises for that argument name")
+            res.ok("C05.R5", site, what, "every Filter construction raises for that argument name (unconditionally, whatever the environment's options)")
         else:
             res.fail("C05.R5", file=flt.file, line=flt.node.lineno, qualname="Filter", construct=f"template keyword argument `{name}:` is accepted", message=f"RenderContext.filter injects `{name}=` with functools.partial and Filter passes template keyword arguments through unchecked: `{{{{ x | f: {name}: obj }}}}` replaces the engine's object by a context value, whose attributes and methods the filter then uses", what=what)
 
